@@ -1,7 +1,7 @@
 """Operation-sequence generator (DESIGN §5.2). Everything random is drawn from one `random.Random`.
 Generation is adaptive: the session executes each line on the implementation as it goes so that later
 operations can refer to ids and prefixes that exist; the recorded lines are then replayed through the model."""
-from .impl import hx, brack
+from .impl import hx, brack, unx
 
 LONG = [73, 74, 75, 76, 147, 148, 149, 150, 221, 222, 223, 296, 300]
 G2_BYTES = [0x00, 0x01, 0x7B, 0x7D, 0x41, 0x61, 0xFF, 0x80, 0x3A, 0x6D]
@@ -261,12 +261,19 @@ class Session(object):
         if self.backend != "file":
             return None
         rules = self.current_rules_arg()
+        forgotten = None
         if self.r.random() < self.p.get("forget_rule", 0.0):
             items = rules[1:-1].split(",") if len(rules) > 2 else []
             if items:
-                items.pop(self.r.randrange(len(items)))
+                forgotten = unx(items.pop(self.r.randrange(len(items))).split("=")[0])
                 rules = "[" + ",".join(items) + "]"
-        return self.do("reopen %s %s" % (self.dflt, rules))
+        res = self.do("reopen %s %s" % (self.dflt, rules))
+        if forgotten is not None:
+            # queries that walk through the flagged anchor whose rule is no longer in RAM
+            under = [l for l in self.known if l.startswith(forgotten)][:3] + [forgotten + b"p:zz|"]
+            for l in under:
+                self.q("potential " + hx(l)); self.q("retrievewe " + hx(l))
+        return res
 
     def w_clear(self):
         x = self.r.random()
@@ -387,9 +394,10 @@ class Session(object):
     READS = ["resolution", "pages", "paginate", "paginatelinks", "mostlinked", "hierarchy", "welinks", "pagelinks",
              "network", "global", "linksiter", "locate", "metrics", "helpers", "hierarchy_all"]
 
-    def run(self, nops):
+    def run(self, nops, skip_init=False):
         p = self.p
-        self.init()
+        if not skip_init:
+            self.init()
         ww = [p.get("w", {}).get(k, DEFAULT_W[k]) for k in self.WRITES]
         rw = [p.get("r", {}).get(k, 0.0 if k == "hierarchy_all" else 1.0) for k in self.READS]
         for _ in range(nops):
